@@ -107,7 +107,9 @@ def stage(dest, crate, bytes_model="len", cap=2, qcap=2, max_clients=None, repla
     os.makedirs(dest)
     dst_crate = os.path.join(dest, crate)
     shutil.copytree(src_crate, dst_crate, ignore=shutil.ignore_patterns("target", "examples", "benches", "tests"))
-    shutil.copy(os.path.join(REPO, "Cargo.lock"), os.path.join(dest, "Cargo.lock"))
+    lock = os.path.join(REPO, "Cargo.lock")
+    if os.path.isfile(lock):
+        shutil.copy(lock, os.path.join(dest, "Cargo.lock"))
     _write(os.path.join(dest, "Cargo.toml"), '[workspace]\nmembers = ["%s"]\nresolver = "2"\n' % crate)
     _write(os.path.join(dest, ".cargo", "config.toml"), "[net]\noffline = true\n")
 
